@@ -104,6 +104,16 @@ CHECKS.update({
          'level other: the lexical side (regular expressions of timeinterval.py) is not modelled in TLA+; strings come from the harness renderer; ambiguous strings the docs warn '
          'about are not generated; weekday handling of TimeDate.parse belongs to C07; TLC, the JSON reader and datetime are trusted', '6 C13'),
 })
+CHECKS.update({
+ 'C12': (MC, 'TLC model checking of OutputAsync.tla (operational model of the three modes on a tick grid, M1-M6 + liveness under weak fairness) + TLC-exported and random arrival patterns replayed on the real OutputAsync, batch trace validation against the permissive monitor OutputAsyncTrace.tla',
+         'OutputAsync.tla models wait / cancel / start mode with urgent Start/Cancel/Finish/Release steps, guard sleep as part of a run, stop_data; TLC checks every put resolved, one at a time, '
+         'arrival order (wait), cancel only for a newer event / newest never cancelled (cancel), start at once (start), output = runs not finished, guard respected, stop_data last, '
+         'and that after stop everything completes (liveness). Behaviours exported from TLC simulation of all three modes and random patterns (bursts, arrivals during runs and guard sleeps, '
+         'failing coroutines, data-less events, short and long mode names) run on the real block under the virtual-time loop; put / output / coroutine start / end / result / stop lines are '
+         'validated by the monitor: exactly one result with the original data, mode rules at every start and cancellation, output +1/-1 bracketing each run with the release exactly guard_time '
+         'after the coroutine ended, completion within stop_timeout, nothing left.',
+         TRUSTED + '; run durations and guard times are multiples of 0.25 s; InExecutor (threads) is not exercised; stop_timeout is chosen large enough for the pending work', '6 C12'),
+})
 NA = {}
 ALL = [f'C{n:02d}' for n in range(1, 21)]
 
